@@ -327,7 +327,7 @@ def _bmc_worker(args):
     return r
 
 
-def write_consts(ctx, name, nt, nx, sync=False, rollback=False, faults=False, crash=False, versions=False, budget=1, family='v2'):
+def write_consts(ctx, name, nt, nx, sync=False, rollback=False, faults=False, crash=False, versions=False, budget=1, family='v2', work=False):
     p = os.path.join(ctx.out, 'consts_%s.go' % name)
     b = lambda x: 'true' if x else 'false'
     if family == 'v3':
@@ -335,7 +335,7 @@ def write_consts(ctx, name, nt, nx, sync=False, rollback=False, faults=False, cr
                            '\tWithCrash = %s\n\tBudget = %d\n)\n' % (nx, b(rollback), b(faults), b(crash), budget))
         return p
     open(p, 'w').write('//go:build verif\n\npackage verifv2\n\nconst (\n\tNT = %d\n\tNX = %d\n\tWithSync = %s\n\tWithRollback = %s\n'
-                       '\tWithFaults = %s\n\tWithCrash = %s\n\tWithVersions = %s\n\tBudget = %d\n)\n' % (nt, nx, b(sync), b(rollback), b(faults), b(crash), b(versions), budget))
+                       '\tWithFaults = %s\n\tWithCrash = %s\n\tWithVersions = %s\n\tBudget = %d\n\tWithWork = %s\n\tNProbe = %s\n)\n' % (nt, nx, b(sync), b(rollback), b(faults), b(crash), b(versions), budget, b(work), 'ChAppend' if work else '0'))
     return p
 
 
@@ -518,14 +518,14 @@ def post_protocol(ctx, driver, res, replay_budget=3):
                 ctx.seen.add(key)
                 o['status'] = 'violated'
                 path = ctx.keep_replay(hitname, 'VerifRun', inp, {'pkgdir': pkgdir, 'files': files, 'native_result': rr, 'cfg': res['cfg'],
-                                                                 'schedule': q['schedule']})
+                                                                 'schedule': q['schedule'], 'testdir': TESTDIR, 'params': params})
                 ctx.violations.append((hitname, path))
                 driver.log('VIOLATION property=%s replay=%s' % (ctx.pid, path))
                 driver.log('   %s reached at step %s by schedule %s verdicts/init %s' % (hitname, q['hit'][1], q['schedule'], q.get('init')))
             else:
                 o['status'] = 'encoder-mismatch'
                 if os.environ.get('VERIF_KEEP_MISMATCH'):
-                    mp = ctx.keep_replay(str(hitname) + '-MISMATCH', 'VerifRun', inp, {'pkgdir': pkgdir, 'files': files, 'native_result': rr, 'cfg': res['cfg'], 'schedule': q['schedule']})
+                    mp = ctx.keep_replay(str(hitname) + '-MISMATCH', 'VerifRun', inp, {'pkgdir': pkgdir, 'files': files, 'native_result': rr, 'cfg': res['cfg'], 'schedule': q['schedule'], 'testdir': TESTDIR, 'params': params})
                     driver.log('  mismatch kept at', mp)
                 ctx.notes.append('ENCODER-MISMATCH bmc %s: native=%s' % (label, str(rr)[:300]))
                 driver.log('ENCODER-MISMATCH bmc', label, str(rr)[:400])
